@@ -4,7 +4,7 @@
 From XSG.Model Require Import Strings Chars Convert Necessity Element Parser Dom Spec Render RustRender RustLoop Reparse.
 From XSG.Generated Require Import LoopRs EntryRs RenderRs.
 From XSG.Proofs Require Import ElementProofs SkelProofs ConvertProofs WfProofs NamesRsProofs RenderRsProofs ReparseProofs
-  RenderProofs ReflectProofs OracleProofs LoopRsProofs LibraryProofs.
+  RenderProofs ReflectProofs OracleProofs ReprDefs InferProofs EventLevel LoopRsProofs LibraryProofs.
 From XSG.Corr Require Import Common Oracles.
 From Coq Require Import String List.
 Import ListNotations.
@@ -52,4 +52,19 @@ Proof.
   - apply derive_b_render.
   - apply names_b_render.
   - intros Ha Ht. apply render_wf; try assumption. now apply (run_src_Uniq mk docs).
+Qed.
+
+(* C09, first appearance: the attribute list, and the child list in position order, of every node
+   of the tree the source's parser returns are the names in order of first appearance over all
+   occurrences of that path in the documents *)
+Lemma library_src_first_appearance mk docs e :
+  docs_ok docs = true -> Forall (Forall wf_node) docs ->
+  run_src mk (map events_of_forest docs) = Ok e ->
+  forall p x, node_at e p = Some x ->
+    map snd (eattrs (snd x)) = dedup (flat_map oattrs (occs p (doc_roots docs)))
+    /\ map cname (isort by_pos (echildren (snd x))) = dedup (flat_map okidnames (occs p (doc_roots docs))).
+Proof.
+  intros OK W Hr p x Hx. rewrite run_src_model in Hr. apply run_evs_ok_iff in Hr. split.
+  - now apply (C09_first_appearance_attrs_l docs e).
+  - now apply (C09_first_appearance_children_l docs e).
 Qed.
